@@ -45,6 +45,7 @@ struct World
   std::unique_ptr<std::ostream> sink[6];
   std::size_t seen[6] = {};
   bool sink_failed[6] = {};
+  bool sink_exceptions = false; // the sinks have exceptions(badbit | failbit) set
   std::unique_ptr<fcppt::log::context> context;
   unsigned level_formatters = 63; // bit l: the level stream of level l has its own (default) formatter
   Model model{NONE};
@@ -243,7 +244,18 @@ struct World
       long const accept = sim::fault::st().target[sim::fault::accept];
       if (accept > 0)
         sinkbuf[l]->accept_limit(accept - 1);
-      bool const ok = guarded(n, [&] { ob.o->log(static_cast<fcppt::log::level>(l), fcppt::log::out << "m" << tnum << '|' << tnum * 7U); });
+      bool ok = false;
+      try
+      {
+        ok = guarded(n, [&] { ob.o->log(static_cast<fcppt::log::level>(l), fcppt::log::out << "m" << tnum << '|' << tnum * 7U); });
+      }
+      catch (std::ios_base::failure const &)
+      {
+        // the sink is the caller's stream: with exceptions() enabled on it, a refused write is
+        // reported to the caller by the stream itself
+        SIM_CHECK(sink_exceptions && !sink[l]->good(), "undocumented-exception", "log threw std::ios_base::failure although no sink with exceptions enabled has failed");
+        ctx.probe("sink_failure_thrown_to_the_caller");
+      }
       if (accept > 0)
       {
         sinkbuf[l]->accept_limit(-1);
@@ -272,6 +284,10 @@ struct World
         // a failed sink: no exception, no crash; what was emitted is a prefix of the message
         SIM_CHECK(expected.compare(0, delta.size(), delta) == 0 || !want, "emission", "failed sink received '" + delta + "'");
         ctx.probe("log_to_failed_sink");
+        // the caller repairs the sink (clear()): from now on messages must arrive again - a
+        // failure of one write must not silence the logger for good
+        sink[l]->clear();
+        sink_failed[l] = false;
       }
       else if (!ok)
       {
@@ -301,6 +317,13 @@ struct World
     {
       sinkbuf[l] = std::make_unique<sim::StreamBuf<char>>();
       sink[l] = std::make_unique<std::ostream>(sinkbuf[l].get());
+    }
+    sink_exceptions = plan.cfg.get("sexc") != 0;
+    if (sink_exceptions)
+    {
+      for (int l = 0; l < 6; ++l)
+        sink[l]->exceptions(std::ios_base::badbit | std::ios_base::failbit);
+      ctx.probe("sinks_with_exceptions_enabled");
     }
     name_variant() = static_cast<unsigned>(plan.cfg.getu("nv") % 6);
     int const root = static_cast<int>(plan.cfg.getu("root") % 7);
@@ -399,6 +422,8 @@ void generate(sim::Rng &rng, sim::Plan &p, bool)
   p.cfg.set("root", static_cast<long>(rng.below(7)));
   if (rng.chance(1, 3))
     p.cfg.set("nv", static_cast<long>(rng.range(1, 5)));
+  if (rng.chance(1, 3))
+    p.cfg.set("sexc", 1);
   if (rng.chance(1, 3))
     p.cfg.set("lsf", static_cast<long>(rng.chance(1, 3) ? 0 : rng.below(64)));
   static char const *const names[] = {"set", "get", "obj_ctx", "obj_loc", "obj_parent", "obj_destroy", "level", "enabled", "log"};
